@@ -150,6 +150,10 @@ def run(ctx, bt):
     from ..runs_run import run_days_protocol
     run_days_protocol(ctx, bt, ctx.scale(12, 300), None, "btday[C09]:root-and-shadow-copies", make_spec=gen_case)
     paper_calls_protocol(ctx, bt, ctx.scale(15, 300))
+    from .. import whole_run as W
+    # nested backtests executed end to end by the model, every shadow copy being a stand-alone backtest of the child's program
+    W.whole_run_protocol(ctx, bt, ctx.scale(25, 500), "whole-run[C09]:nested-programs",
+                         make_spec=lambda rng: W.gen_spec(rng, nested=True, depth3=rng.random() < 0.3))
 
 
 def search(ctx, bt):
